@@ -40,6 +40,7 @@ pub static LAST_PANIC_AT: std::sync::Mutex<String> = std::sync::Mutex::new(Strin
 /// no panic noise on stderr; the location of the last panic is kept for the record
 pub fn silence_panics() {
     std::panic::set_hook(Box::new(|info| {
+        if std::env::var_os("VERIF_BT").is_some() { eprintln!("PANIC {info}\n{}", std::backtrace::Backtrace::force_capture()); }
         if let (Some(l), Ok(mut g)) = (info.location(), LAST_PANIC_AT.lock()) {
             *g = format!("{}:{}", l.file(), l.line());
         }
